@@ -1,6 +1,7 @@
 (** C20 — candidate gathering: proved kernels (redundancy elimination, transaction duration); the gathering session
     against scripted servers is explored on the simulator. *)
 From Coq Require Import ZArith List Bool Lia.
+From Nice Require Agent.LookupModel Agent.LookupProofs.
 From Nice Require Import Timer.TimerModel Timer.TimerProofs Agent.GatherModel Agent.GatherProofs.
 Import ListNotations.
 Local Open Scope Z_scope.
@@ -194,3 +195,47 @@ Example C20_nonvacuous_silence :
   (let r := run cfg_default (init l2) (EStart (at_ms 0) [] :: es_silent 101) in completed (fst r) /\ n_gd (snd r) = 1 /\ n_send 0 (snd r) = 3 /\ n_send 1 (snd r) = 3) /\
   (let r := run cfg_default (init l2) (EStart (at_ms 0) [] :: es_silent 1300) in completed (fst r) /\ n_gd (snd r) = 1).
 Proof. exact example_silent. Qed.
+
+(** * Servers given by NAME (agent.c: the two resolver callbacks, agent_gathering_done; `Agent/LookupModel.v`, statements checked against the source
+    on every run).  The resolver answers land in an order the agent does not control.  From the state nice_agent_gather_candidates leaves behind, for EVERY
+    number of lookups, every order in which they land, succeed or fail, and every interleaving with the discovery timer: *)
+Theorem C20_lookups_completion_at_most_once : forall stun turns evs s',
+  Nice.Agent.LookupModel.lrun Nice.Agent.LookupModel.cfg_fixed (Nice.Agent.LookupModel.after_gather stun turns) evs = Some s' ->
+  (Nice.Agent.LookupModel.dones s' <= 1)%nat.
+Proof. exact Nice.Agent.LookupProofs.completion_at_most_once. Qed.
+
+(** completion is announced only after every lookup has landed and the discovery has finished ... *)
+Theorem C20_lookups_completion_not_early : forall stun turns evs s',
+  Nice.Agent.LookupModel.lrun Nice.Agent.LookupModel.cfg_fixed (Nice.Agent.LookupModel.after_gather stun turns) evs = Some s' ->
+  Nice.Agent.LookupModel.dones s' = 1%nat ->
+  Nice.Agent.LookupModel.stun_pending s' = false /\ Nice.Agent.LookupModel.turn_pending s' = 0%nat /\ Nice.Agent.LookupModel.timer s' = false /\
+  Nice.Agent.LookupModel.unsched s' = 0%nat /\ Nice.Agent.LookupModel.inflight s' = 0%nat.
+Proof. exact Nice.Agent.LookupProofs.completion_not_early. Qed.
+
+(** ... and it HAS been announced whenever nothing more can happen (all lookups landed - resolved or failed -, no discovery timer) *)
+Theorem C20_lookups_completion_by_quiescence : forall stun turns evs s',
+  Nice.Agent.LookupModel.lrun Nice.Agent.LookupModel.cfg_fixed (Nice.Agent.LookupModel.after_gather stun turns) evs = Some s' ->
+  evs <> [] -> Nice.Agent.LookupModel.quiescent s' = true -> Nice.Agent.LookupModel.dones s' = 1%nat.
+Proof. exact Nice.Agent.LookupProofs.completion_by_quiescence. Qed.
+
+Theorem C20_lookups_completion_is_final : forall stun turns evs s',
+  Nice.Agent.LookupModel.lrun Nice.Agent.LookupModel.cfg_fixed (Nice.Agent.LookupModel.after_gather stun turns) evs = Some s' ->
+  Nice.Agent.LookupModel.dones s' = 1%nat -> forall e, Nice.Agent.LookupModel.enabled s' e = false.
+Proof. exact Nice.Agent.LookupProofs.completion_is_final. Qed.
+
+(** the code before fix a7c512a: a failed lookup as the last outstanding item never completes; a TURN lookup landing first announces completion while
+    the STUN name is still being resolved *)
+Theorem C20_lookups_before_fix_failed_lookup_never_completes :
+  exists s, Nice.Agent.LookupModel.lrun Nice.Agent.LookupModel.cfg_before (Nice.Agent.LookupModel.after_gather false 1)
+              [Nice.Agent.LookupModel.TurnLanded false 0] = Some s /\
+            Nice.Agent.LookupModel.quiescent s = true /\ Nice.Agent.LookupModel.dones s = 0%nat.
+Proof. exact Nice.Agent.LookupProofs.before_fix_failed_lookup_never_completes. Qed.
+
+Theorem C20_lookups_before_fix_completion_precedes_stun_discovery :
+  exists s, Nice.Agent.LookupModel.lrun Nice.Agent.LookupModel.cfg_before (Nice.Agent.LookupModel.after_gather true 1)
+              [Nice.Agent.LookupModel.TurnLanded true 0] = Some s /\
+            Nice.Agent.LookupModel.dones s = 1%nat /\ Nice.Agent.LookupModel.stun_pending s = true /\
+  exists s2, Nice.Agent.LookupModel.lrun Nice.Agent.LookupModel.cfg_before s
+               [Nice.Agent.LookupModel.StunLanded true 2; Nice.Agent.LookupModel.Tick; Nice.Agent.LookupModel.Tick] = Some s2 /\
+             Nice.Agent.LookupModel.inflight s2 = 2%nat.
+Proof. exact Nice.Agent.LookupProofs.before_fix_completion_precedes_stun_discovery. Qed.
